@@ -35,6 +35,9 @@ inductive Ev where
   /-- thread `t` executes spawn statement `s` (a `go` statement, `time.AfterFunc`, `errgroup.Go`),
       creating thread `t'`.  No effect on the mutexes: a goroutine starts with none. -/
   | fork (t t' : Thread) (s : Nat)
+  /-- thread `t` publishes object `o`: the first store of its address into shared state (a map
+      under its lock, a sync.Map, a channel send).  No effect on the mutexes. -/
+  | publish (t : Thread) (o : Nat)
 deriving DecidableEq, Repr
 
 abbrev Holder := Lock → Option Thread
@@ -51,6 +54,7 @@ def step (h : Holder) : Ev → Option Holder
   | .handoff t t' m => if h m = some t then some (h.set m (some t')) else none
   | .acc _ _ _ => some h
   | .fork _ _ _ => some h
+  | .publish _ _ => some h
 
 def run (h : Holder) : List Ev → Option Holder
   | [] => some h
@@ -78,6 +82,7 @@ def localHeld (t : Thread) (m : Lock) : List Ev → Bool → Bool
       localHeld t m es (if m' = m then (if t'' = t then true else if t' = t then false else b) else b)
   | .acc _ _ _ :: es, b => localHeld t m es b
   | .fork _ _ _ :: es, b => localHeld t m es b
+  | .publish _ _ :: es, b => localHeld t m es b
 
 /-- the thread that performs the step -/
 def evThread : Ev → Thread
@@ -86,6 +91,7 @@ def evThread : Ev → Thread
   | .handoff t _ _ => t
   | .acc t _ _ => t
   | .fork t _ _ => t
+  | .publish t _ => t
 
 /-! ## Static facts -/
 
